@@ -5,10 +5,15 @@ import vlib
 from vlib import Line, dec, enc
 
 FAMILIES = [0, 1, 2, 3, 4, 5]
-EXACT_OPS = ('cos_2', 'sin_3', 'cos_4', 'sin_5', 'cos_6', 'identity', 'hat', 'vee')
+EXACT_OPS = ('cos_2', 'sin_3', 'cos_4', 'sin_5', 'cos_6', 'identity', 'hat', 'vee',
+             # API-coverage ops with input-independent or exactly mirrored outputs (props/apiops.py)
+             'identity_free', 'set_identity', 'set_identity_map', 'consts', 'isapprox', 'fisapprox', 'isapprox_default', 'stream')
 CANCELLING_OPS = ('exp', 'log', 'logexp', 'Adexp', 'rplus', 'rminus', 'dr_exp', 'dl_exp', 'dr_expinv', 'dl_expinv', 'dr_rminus',
                   'dr_rminus_sqn', 'd2r_exp', 'd2l_exp', 'd2r_expinv', 'd2l_expinv', 'd2r_rminus', 'd2r_rminus_sqn',
-                  'calc_S1', 'calc_S2', 'calc_S1inv', 'calculate_q', 'calculate_r')
+                  'calc_S1', 'calc_S2', 'calc_S1inv', 'calculate_q', 'calculate_r',
+                  # the same functions reached through the free-function API / in-place operators / const views (props/apiops.py)
+                  'fexp', 'flog', 'log_cmap', 'frplus', 'frminus', 'rminus_cmap', 'lplus', 'lminus', 'pluseq', 'pluseq_map', 'pluseq_log',
+                  'fdr_exp', 'fdl_exp', 'fdr_expinv', 'fdl_expinv', 'fd2r_exp', 'fd2l_exp', 'fd2r_expinv', 'fd2l_expinv')
 
 
 def lie_specs():
@@ -19,6 +24,25 @@ def tangent_words(n, prec, k):
     """deterministic dyadic test tangent for audits that need an extra vector"""
     vals = [((7 * (i + 1) * (k + 3)) % 17 - 8) / 8.0 for i in range(n)]
     return [enc(v, prec) for v in vals]
+
+
+def isapprox_too_close(l):
+    """isApprox lines whose relative coefficient distance is within a factor 1.5 of the threshold (last input word): the
+    Boolean then depends on the summation order of two squared norms, which Eigen and the model are free to choose
+    differently.  The generator keeps a factor >= 4 from the threshold by construction; this guards the one case it does
+    not control (two unrelated elements that happen to be that close)."""
+    if l.op not in ('isapprox', 'fisapprox', 'isapprox_default'):
+        return False
+    try:
+        v = l.in_vals()
+        eps = v[-1]
+        n = (len(v) - 1) // 2
+        a, b = v[:n], v[n:2 * n]
+        d = math.sqrt(sum((x - y) ** 2 for x, y in zip(a, b)))
+        m = math.sqrt(min(sum(x * x for x in a), sum(x * x for x in b)))
+        return m > 0 and eps > 0 and eps / 1.5 <= d / m <= eps * 1.5
+    except Exception:
+        return False
 
 
 class LieProp:
@@ -53,7 +77,7 @@ class LieProp:
         lines = []
         for f in FAMILIES:
             raw = vlib.run_harness(bins[f'lie{f}'], [n], env={'VERIF_SEED': str(ctx['seed'])})
-            lines += [l for l in vlib.parse_lines(raw) if l.op in self.ops]
+            lines += [l for l in vlib.parse_lines(raw) if l.op in self.ops and not isapprox_too_close(l)]
         return lines
 
     def eval_lines(self, requests):
@@ -118,7 +142,8 @@ class LieProp:
         if not reqs:
             return [], {}, []
         reps = vlib.run_driver([r for r, m in reqs])
-        findings, worst, samples = [], {}, []
+        # findings an audit function raised itself, on the implementation's words (no oracle call needed)
+        findings, worst, samples = list(getattr(self.audit_fn, 'pyfindings', [])), {}, []
         n = 0
         for (r, m), rep in zip(reqs, reps):
             if rep.startswith('ERR'):
@@ -225,7 +250,10 @@ PRIORITY = ['GAL', 'SEK', 'SE3', 'SE2', 'SO3', 'C1', 'SO2']
 
 def band_of(th, prec):
     if th == 0: return 'zero'
-    if th * th < 1e-8: return 'series'
+    # `series` only when th² is below eps2 by more than the working precision can resolve (16 eps): the implementation's own
+    # test `th2 < eps2` is made on ITS rounded th2, and at theta = 1e-4·(1 − 1.3e-8) in single precision it lands on the
+    # closed-form side, where the float formulas are garbage (known findings *-f32-above-switch; DESIGN 8.2, 8.6)
+    if th * th < 1e-8 * (1 - 16 * vlib.EPS.get(prec, 0.0)): return 'series'
     if th < 0.3: return 'above_switch'      # closed forms with cancellation
     return 'generic'
 
